@@ -175,6 +175,9 @@ class Results:
             self.bad(rule, key, what_bad, where, **kw)
         return cond
 
+    def keys(self, rule):
+        return [it['key'] for it in self.items if it['rule'] == rule]
+
     def floor(self, rule, found, required):
         self.floors[rule] = (found, required)
         if found < required:
